@@ -234,6 +234,12 @@ func sharedFlush(ctx *core.Ctx, prop string, maxpend int, pattern string, mode s
 
 func sharedFlushCases(prop, tier string) []core.Case {
 	var cases []core.Case
+	for _, mp := range []int{0, 4} {
+		for _, fo := range []bool{false, true} {
+			mp, fo := mp, fo
+			cases = append(cases, core.Case{ID: fmt.Sprintf("self-flush/maxpend=%d/flushop=%v", mp, fo), Run: func(ctx *core.Ctx) core.Result { return selfFlush(ctx, prop, mp, fo) }})
+		}
+	}
 	pats := append([]string{}, sharedFlushPatterns...)
 	if tier == "thorough" {
 		// every arrival order of up to 7 members and flushes that starts with a member and holds at least one flush
@@ -464,6 +470,93 @@ func c08FlushAsMember(ctx *core.Ctx, maxpend int) core.Result {
 		c.Quiesce(W)
 		e.ok(&wire.Msg{Type: wire.Tclunk, Fid: uint32(700 + rep)})
 		res.Sig(fmt.Sprintf("flush-as-member|mp=%d|old=%v", maxpend, rep%2 == 1))
+	}
+	return res
+}
+
+// selfFlush: a Tflush whose old tag is the tag it carries itself. Alone on its tag there is nothing older under that
+// tag: it is answered at once. Issued behind older requests of that tag it means them, takes its turn after them (they
+// are through by then) and is answered; the requests behind it run afterwards.
+func selfFlush(ctx *core.Ctx, prop string, maxpend int, withFlushOp bool) core.Result {
+	var res core.Result
+	s, e, _, ok := c08setup(Config{Dotu: true, Msize: 8192, Maxpend: maxpend, Flush: withFlushOp})
+	if !ok {
+		res.Inconclusive = "selfflush: setup failed"
+		return res
+	}
+	c := e.c
+	defer c.Hangup()
+	violate := func(sig, what string, det interface{}) {
+		if strings.HasPrefix(sig, prop+";") {
+			res.Violate(sig, what, det)
+		}
+	}
+	for rep := 0; rep < 4 && len(res.Violations) == 0; rep++ {
+		ctx.Beat()
+		det := map[string]interface{}{"maxpend": maxpend, "flushop": withFlushOp, "rep": rep}
+		// alone
+		tag := e.next()
+		_ = c.Send(&wire.Msg{Type: wire.Tflush, Tag: tag, Oldtag: tag})
+		res.Evals++
+		if rp, err := c.WaitTag(tag, W); err != nil || rp.Msg == nil || rp.Msg.Type != wire.Rflush {
+			violate("C07;self-flush;unanswered", "a Tflush naming its own tag (nothing older is outstanding under it) was not answered by an Rflush", det)
+			violate("C03;self-flush;unanswered", "a Tflush naming its own tag got no reply", det)
+			return res
+		}
+		// behind an executing request of the same tag, with another request behind it
+		tag = e.next()
+		seq0 := s.Log.Seq()
+		p1 := script.NewPlan()
+		p1.Gate, p1.Entered = make(chan struct{}), make(chan struct{})
+		s.Ops.SetPlan(c.ID, tag, p1)
+		_ = c.Send(&wire.Msg{Type: wire.Tstat, Tag: tag, Fid: e.root})
+		select {
+		case <-p1.Entered:
+		case <-time.After(W):
+			res.Inconclusive = "selfflush: first member never started"
+			return res
+		}
+		_ = c.Send(&wire.Msg{Type: wire.Tflush, Tag: tag, Oldtag: tag}, &wire.Msg{Type: wire.Twalk, Tag: tag, Fid: e.root, Newfid: uint32(800 + rep)})
+		s.Ctl.WaitPassed("recv.dispatch", c.ID, int(tag), 3, 2*time.Second)
+		time.Sleep(2 * time.Millisecond)
+		close(p1.Gate)
+		res.Evals++
+		var types []uint8
+		for len(types) < 3 {
+			rp, err := c.WaitTag(tag, W)
+			if err != nil || rp.Msg == nil {
+				break
+			}
+			types = append(types, rp.Msg.Type)
+		}
+		// the request the flush names was executing: it is answered (or, with a cancelling FlushOp, not) before the
+		// Rflush; the request behind the flush is answered after it
+		var names []string
+		for _, t := range types {
+			names = append(names, wire.TypeName(t))
+		}
+		seen := strings.Join(names, ",")
+		if !strings.Contains(seen, "Rflush") {
+			violate("C07;self-flush;unanswered;in-group", fmt.Sprintf("Tstat, Tflush (naming the tag they share) and Twalk under one tag: replies %q, no Rflush", seen), det)
+			violate("C03;self-flush;unanswered;in-group", fmt.Sprintf("replies %q for three requests under one tag", seen), det)
+			return res
+		}
+		if !strings.HasSuffix(seen, "Rflush,Rwalk") {
+			violate("C08;self-flush;order", fmt.Sprintf("Tstat, Tflush and Twalk under one tag were answered %q", seen), det)
+			violate("C07;self-flush;order", fmt.Sprintf("Tstat, Tflush (naming their tag) and Twalk were answered %q: the request behind the flush is not among those it names", seen), det)
+		}
+		nwalk := 0
+		for _, ev := range s.Log.Snapshot(seq0) {
+			if ev.Kind == "op" && ev.Conn == c.ID && ev.Tag == tag && ev.Op == "Walk" {
+				nwalk++
+			}
+		}
+		if nwalk != 1 {
+			violate("C08;self-flush;member-lost", fmt.Sprintf("the request behind the flush was executed %d times", nwalk), det)
+		}
+		c.Quiesce(W)
+		e.ok(&wire.Msg{Type: wire.Tclunk, Fid: uint32(800 + rep)})
+		res.Sig(fmt.Sprintf("self-flush|mp=%d|fo=%v", maxpend, withFlushOp))
 	}
 	return res
 }
